@@ -659,10 +659,12 @@ package main
 // is the normalised list.
 //@ ghost var restrictedTagsSame bool
 //@ ghost var restrictedTagsChecked int
+//@ ghost var restrictedTagsCheckedOld int
 //@ func restrictedTagsEqual(oldTags []string, newTags []string, namespaces map[string]bool) (same bool)
 //@   trusted
-//@   modifies restrictedTagsSame, restrictedTagsChecked
+//@   modifies restrictedTagsSame, restrictedTagsChecked, restrictedTagsCheckedOld
 //@   ensures restrictedTagsSame == same
+//@   ensures restrictedTagsCheckedOld == ref(oldTags)
 // (which list was compared: what is stored afterwards must be that very list, not an earlier or a later form of it)
 //@   ensures restrictedTagsChecked == ref(newTags)
 
@@ -916,6 +918,8 @@ package main
 //@   ensures [C06] defaults_without_owner: err == nil ==> !hasO(t.accessAuth) && !hasO(t.accessAnon)
 //@   assert at call store.TopicsPersistenceInterface.Create [C06] stored_owner: $2 == t.owner && (t.owner in t.perUser) && hasO(t.perUser[t.owner].modeWant & t.perUser[t.owner].modeGiven)
 //@   assert at call store.TopicsPersistenceInterface.Create [C16] avatar_after_create: true
+// (a new topic's tags are the list that was checked to contain no restricted tag)
+//@   assert at call store.TopicsPersistenceInterface.Create [C19] tags_checked: len($1.Tags) > 0 ==> restrictedTagsSame && ref($1.Tags) == restrictedTagsCheckedOld
 //@ func pbDefaultAcsDeserialize(defacs *pbx.DefaultAcsMode) (res *MsgDefaultAcsMode)
 //@   modifies nothing
 //@   ensures [C20] kept: defacs != nil && (defacs.Auth != "" || defacs.Anon != "") ==> res != nil && res.Auth == defacs.Auth && res.Anon == defacs.Anon
@@ -957,6 +961,8 @@ package main
 //@   requires [C13,assumed] validators_registered: forall m string :: (m in globals.validators) ==> validatorConfigured(m)
 //@   modifies inferred
 //@   assert at call PreCheck [C13] validator_exists: $0 != nil
+// (a new account's tags are the list that was checked to contain no restricted tag)
+//@   assert at call store.UsersPersistenceInterface.Create [C19] tags_checked: len($1.Tags) > 0 ==> restrictedTagsSame && ref($1.Tags) == restrictedTagsCheckedOld
 //@   loop 1
 //@     invariant [C13] still_known: forall k int :: 0 <= k && k < len(creds) ==> (creds[k].Method in globals.validators)
 //@ func validatedCreds(uid types.Uid, authLvl auth.Level, creds []MsgCredClient, errorOnFail bool) (validated []string, tags []string, err error)
